@@ -6,7 +6,11 @@ Two correspondences on the same histories of register / unregister / route opera
   * `transport` — an `RTCDtlsTransport` whose ICE transport and SRTP session are stubs: registrations go
                   through `_register_rtp_*` with real parameter objects, packets are serialised and fed
                   datagram by datagram through `_recv_next` (RTP/RTCP demultiplexing, `RtcpPacket.parse`,
-                  compound packets); observes the receiver / sender callbacks.
+                  compound packets); observes the receiver / sender callbacks.  The stub endpoints follow scripts:
+                  while handling the k-th packet handed to them they unregister themselves / another receiver / a sender
+                  or register a new endpoint -- inline, after yielding to the event loop, or through ANOTHER task that
+                  runs while the handler is suspended.  The model (Model/RouterDelivery.lean) processes a datagram
+                  packet by packet against the current tables with the same scripted table changes threaded through.
 The oracle is an independent reference written from the property text (who is registered for which SSRC,
 who accepts which payload type, which sender owns which SSRC), evaluated against what the implementation did.
 """
@@ -16,16 +20,21 @@ import itertools
 
 from harness.check import Component
 
-LEAN_TARGETS = ["Aiortc.Props.C12"]
+LEAN_TARGETS = ["Aiortc.Props.C12", "Aiortc.Props.C12Delivery"]
+AUDIT_PROPS = ["C12", "C12Delivery"]
 DRIVERS = ["Router"]
 MANIFEST = {
-    "technique": "Lean 4 theorems (induction over histories, table invariants) about an executable model of RtpRouter + "
+    "technique": "Lean 4 theorems (induction over histories, table invariants) about an executable model of RtpRouter and of the "
+                 "delivery loops of RTCDtlsTransport (compound datagram = fold over its packets, table changes during deliveries as input) + "
                  "differential run of the compiled model against RtpRouter and against RTCDtlsTransport callbacks on random and "
                  "exhaustively enumerated short histories; independent reference oracle",
     "text": "route_rtp / route_rtcp of the model are characterised exactly (who gets an RTP packet, SSRC latching, exact RTCP "
             "recipient sets incl. REMB FCI, no exception escapes) for every reachable router state, and an unregistered receiver / "
             "sender is proved never to be routed to again for every continuation of the history that does not re-register it. The model "
-            "is tied to the real class by running identical histories through both and comparing every return value and the final tables.",
+            "is tied to the real class by running identical histories through both and comparing every return value and the final tables. "
+            "At transport level a compound RTCP datagram is proved to be routed packet by packet on the tables as they are when each packet's turn comes "
+            "(handlers and other tasks may change them during every delivery), so an endpoint unregistered in the middle of a datagram gets none of the "
+            "packets behind; checked against a real RTCDtlsTransport with scripted stub endpoints.",
     "note": "Needs fixes/C12-remb-truncated-fci.patch (struct.error escaping route_rtcp on a REMB whose SSRC count exceeds its length).",
     "design_ref": "DESIGN.md §2 C12",
 }
@@ -35,6 +44,11 @@ ASSUMPTIONS = [
     "an RTCP SDES packet is routed to nobody (the code has no branch for it; it describes sources, it does not report on a registered stream)",
     "transport component: RTP packets with marker=1 and payload type 64..80 are not generated (RFC 5761 demultiplexing treats them as RTCP)",
     "'sticks from then on' is proved up to the next unregister_receiver of that receiver or register_receiver listing that SSRC",
+    "granularity of 'nothing is routed to it again' at transport level: the recipient set of ONE RTCP packet is fixed when the packet is routed; a co-recipient "
+    "unregistered by the handler of another co-recipient of the same packet still gets that packet (the oracle accepts both, the model follows the code), "
+    "from the next packet of the datagram on it gets nothing",
+    "table changes during a delivery (by the handler or by another task while the handler awaits) and the iteration order of a recipient set are inputs of the "
+    "transport model; generated cases are kept independent of the set order (several handlers firing on one packet only unregister)",
 ]
 TRUSTED_EXTRA = [
     "RtcpPacket.parse / RtpPacket.parse / SRTP / DTLS are not modelled here (C07/C05); the transport component only checks that callbacks equal the router model's results",
@@ -42,7 +56,11 @@ TRUSTED_EXTRA = [
 ]
 RULE = ("histories of 0..40 operations over <=6 receivers, <=6 senders, SSRC pool of 8 values (0, 1, 2^32-1, ...), payload types pool of 7, "
         "RTCP of all six classes, REMB FCIs well-formed and malformed (truncated at every byte, count +-1/255, bad prefix); thorough adds every "
-        "history of length <=5 over an 11-letter alphabet with 3 receivers and every history of length 6 over a 7-letter alphabet; distinct = distinct history; nontrivial = some packet was routed to somebody")
+        "history of length <=5 over an 11-letter alphabet with 3 receivers and every history of length 6 over a 7-letter alphabet; transport: the same random "
+        "histories plus traffic histories (bursts of 2..7 RTCP packets about the registered streams in one compound datagram, the same packet twice, RTP) with 0..3 "
+        "scripted handlers (on the k-th packet handed to an endpoint: stop itself / another receiver / a sender, start a new endpoint, hand the stream over; inline, "
+        "after yielding, or by another task while the handler is suspended) plus every compound datagram of 2..3 (thorough: ..4) packets over a 4-letter alphabet x "
+        "every one of 16 single scripted changes; distinct = distinct history; nontrivial = some packet was routed to somebody")
 
 SSRCS = [0, 1, 2, 1234, 5678, 0x7FFFFFFF, 0x80000000, 0xFFFFFFFF]
 PTS = [0, 8, 96, 97, 98, 111, 127]
@@ -181,33 +199,99 @@ def ref_run(ops):
     return [ref.step(o) for o in ops]
 
 
+def names_of(out):
+    """Recipient names in an output string (`R3`, `N`, `ok R1,S2`, `ok -`, `-`)."""
+    if out in ("-", "N", "ok -") or out.startswith("crash") or out == "ValueError":
+        return []
+    return out.replace("ok ", "").split(",")
+
+
+def ref_history(ops, scripts=(), compound=False, observed=None):
+    """The property evaluated on a whole history, op by op: -> list of dicts
+         want   expected output           label  branch
+         reg_r / reg_s   receivers / senders registered when the operation starts (i.e. AFTER every table change that
+                         preceded it, including the ones made during earlier deliveries of the same datagram)
+         stale  what a routing decision taken when the datagram ARRIVED would have been (None for a datagram's first
+                packet and for non-RTCP operations)
+         fired  number of scripted table changes triggered by the deliveries of this operation
+         maybe  recipients that another recipient of the SAME packet unregisters while handling it: the recipient set of
+                one packet is computed once, so they get this packet too -- unless the implementation re-checks the
+                registration before every single delivery, which the property permits just as well
+    `observed` (oracle): the outputs of the implementation; the stubs change the tables on the deliveries that really
+    happened, so these -- not the demanded ones -- drive the scripted table changes.
+    `scripts`: [kind, id, nth, table ops, mode, yields] -- while endpoint (kind, id) handles the nth packet handed to it,
+    the table ops are performed (by whom / after how many suspensions is irrelevant for what the property demands)."""
+    import copy
+    ref = Ref()
+    seen = {}
+    fire = {}
+    for kind, i, nth, tops, _mode, _yields in scripts:
+        fire.setdefault((f"{kind}{i}", nth), []).extend(tops)
+    res = []
+    for group in datagrams(ops, compound):
+        snap = copy.deepcopy(ref) if len(group) > 1 else None
+        for j, op in enumerate(group):
+            entry = {"reg_r": set(ref.registered), "reg_s": set(ref.snd.values()), "stale": None, "fired": 0, "firing": [], "maybe": set()}
+            if snap is not None and j > 0:
+                entry["stale"] = copy.deepcopy(snap).step(op)[0]
+            entry["want"], entry["label"] = ref.step(op)
+            if op[0] not in ("rr", "rs", "ur", "us"):
+                delivered = names_of(entry["want"])
+                if observed is not None and len(res) < len(observed):
+                    delivered = sorted(set(x for x in names_of(observed[len(res)]) if x[:1] in "RS" and x[1:].isdigit()))
+                for nm in delivered:
+                    seen[nm] = seen.get(nm, 0) + 1
+                    tops = fire.get((nm, seen[nm]), [])
+                    if tops:
+                        entry["firing"].append((nm, seen[nm], tops))
+                for nm, _n, tops in entry["firing"]:
+                    for t in tops:
+                        ref.step(t)
+                        entry["fired"] += 1
+                        gone = {"ur": "R", "us": "S"}.get(t[0])
+                        if gone and f"{gone}{t[1]}" != nm:
+                            entry["maybe"].add(f"{gone}{t[1]}")
+            res.append(entry)
+    return res
+
+
 # ------------------------------------------------------------------------------------------------
 # implementation side
 # ------------------------------------------------------------------------------------------------
 
 class StubReceiver:
-    def __init__(self, i, log=None):
+    """Stand-in for RTCRtpReceiver. `ctx` (transport runs only) scripts what the handler does to the routing tables."""
+
+    def __init__(self, i, log=None, ctx=None):
         self.i = i
         self.log = log
+        self.ctx = ctx
 
     def _handle_disconnect(self):
         pass
 
     async def _handle_rtcp_packet(self, packet):
         self.log.append(("R", self.i, packet))
+        if self.ctx is not None:
+            await self.ctx.handler_body("R", self.i)
 
     async def _handle_rtp_packet(self, packet, arrival_time_ms):
         self.log.append(("R", self.i, packet))
+        if self.ctx is not None:
+            await self.ctx.handler_body("R", self.i)
 
 
 class StubSender:
-    def __init__(self, i, log=None):
+    def __init__(self, i, log=None, ctx=None):
         self.i = i
         self._ssrc = None
         self.log = log
+        self.ctx = ctx
 
     async def _handle_rtcp_packet(self, packet):
         self.log.append(("S", self.i, packet))
+        if self.ctx is not None:
+            await self.ctx.handler_body("S", self.i)
 
 
 def _exc_tag(exc):
@@ -346,94 +430,183 @@ def _loop():
     return _LOOP
 
 
-def run_transport(ops, compound):
-    """Same history through RTCDtlsTransport; consecutive RTCP ops form one compound datagram if `compound`."""
-    from aiortc import rtp
-    from aiortc.rtcdtlstransport import RTCDtlsTransport
-    from aiortc.rtcrtpparameters import (RTCRtpCodecParameters, RTCRtpDecodingParameters, RTCRtpReceiveParameters,
-                                         RTCRtpSendParameters)
-    ice = _Ice()
-    dtls = RTCDtlsTransport(ice, [object()])
-    dtls.encrypted = True
-    dtls._rx_srtp = _Srtp()
-    log = []
-    recv, snd = {}, {}
-    outs = []
-    loop = _loop()
+RTCP_KINDS = ("sr", "rrp", "sdes", "bye", "fb", "ps")
 
-    def feed(data):
-        ice.queue.append(data)
-        del log[:]
-        loop.run_until_complete(dtls._recv_next())
-        return list(log)
 
-    i = 0
+def datagrams(ops, compound):
+    """Top-level items of a transport history: [op] for a table operation / an RTP datagram, a list of RTCP ops for one
+    (compound) RTCP datagram. With `compound`, consecutive RTCP operations travel in ONE datagram."""
+    items, i = [], 0
     while i < len(ops):
-        op = ops[i]
+        group = [ops[i]]
+        if compound and ops[i][0] in RTCP_KINDS:
+            while i + len(group) < len(ops) and ops[i + len(group)][0] in RTCP_KINDS:
+                group.append(ops[i + len(group)])
+        items.append(group)
+        i += len(group)
+    return items
+
+
+def attribute(got, pkts):
+    """Which log entries belong to which packet of the datagram -> per-packet list of (kind, id), or an error string.
+    Entries for the packet object that was handed over last belong to the same packet; otherwise the next packet of
+    the datagram that equals it (identical packets may occur twice in a datagram), otherwise any equal packet."""
+    per = [[] for _ in pkts]
+    cur, prev = -1, None
+    for kind, i, o in got:
+        idx = cur if (prev is not None and o is prev) else None
+        if idx is None:
+            idx = next((j for j in range(cur + 1, len(pkts)) if pkts[j] == o), None)
+        if idx is None:
+            idx = next((j for j in range(len(pkts)) if pkts[j] == o and (kind, i) not in per[j]), None)
+        if idx is None:
+            return "crash stray-callback"
+        per[idx].append((kind, i))
+        cur, prev = max(cur, idx), o
+    if any(len(set(x)) != len(x) for x in per):
+        return "crash duplicate-callback"
+    return per
+
+
+class _TransportRun:
+    """One history through a real RTCDtlsTransport (stub ICE transport, identity SRTP session). Receivers / senders are
+    stubs whose handlers follow `scripts`: while endpoint (kind, id) handles the nth packet handed to it, table operations
+    are performed -- by the handler itself (`inline`), by the handler after it yielded to the event loop (`yield`), or by
+    ANOTHER task while the handler is suspended (`task`)."""
+
+    def __init__(self, scripts):
+        from aiortc.rtcdtlstransport import RTCDtlsTransport
+        self.ice = _Ice()
+        self.dtls = RTCDtlsTransport(self.ice, [object()])
+        self.dtls.encrypted = True
+        self.dtls._rx_srtp = _Srtp()
+        self.log = []
+        self.recv, self.snd = {}, {}
+        self.seen = {}
+        self.fire = {}
+        for kind, i, nth, tops, mode, yields in scripts:
+            self.fire.setdefault((kind, i, nth), []).append((tops, mode, yields))
+        self.loop = _loop()
+
+    def receiver(self, i):
+        return self.recv.setdefault(i, StubReceiver(i, self.log, self))
+
+    def sender(self, i):
+        return self.snd.setdefault(i, StubSender(i, self.log, self))
+
+    def table_op(self, op):
+        from aiortc.rtcrtpparameters import (RTCRtpCodecParameters, RTCRtpDecodingParameters, RTCRtpReceiveParameters,
+                                             RTCRtpSendParameters)
         k = op[0]
-        try:
-            if k == "rr":
-                r = recv.setdefault(op[1], StubReceiver(op[1], log))
-                params = RTCRtpReceiveParameters(
-                    codecs=[RTCRtpCodecParameters(mimeType="video/x", clockRate=90000, payloadType=pt) for pt in op[3]],
-                    encodings=[RTCRtpDecodingParameters(ssrc=s, payloadType=(op[3][0] if op[3] else 0)) for s in op[2]],
-                    muxId=op[4] or "")
-                dtls._register_rtp_receiver(r, params)
-                outs.append("-")
-            elif k == "rs":
-                # a sender object has one _ssrc: a sender id registered on another SSRC is re-registered with the new one
-                s = snd.setdefault(op[1], StubSender(op[1], log))
-                s._ssrc = op[2]
-                dtls._register_rtp_sender(s, RTCRtpSendParameters())
-                outs.append("-")
-            elif k == "ur":
-                dtls._unregister_rtp_receiver(recv.setdefault(op[1], StubReceiver(op[1], log)))
-                outs.append("-")
-            elif k == "us":
-                dtls._unregister_rtp_sender(snd.setdefault(op[1], StubSender(op[1], log)))
-                outs.append("-")
-            elif k == "p":
-                seq = i % 65536
-                pkt = rtp.RtpPacket(payload_type=op[2], ssrc=op[1], sequence_number=seq, timestamp=seq * 3, payload=b"x" * (i % 5),
-                                    marker=1 if (op[2] < 64 or op[2] > 80) and i % 3 == 0 else 0)
-                got = feed(pkt.serialize())
-                bad = [g for g in got if not (g[0] == "R" and g[2].ssrc == op[1] and g[2].payload_type == op[2]
-                                                and g[2].sequence_number == seq)]
-                if bad or len(got) > 1:
-                    outs.append("crash callbacks:" + ",".join(f"{g[0]}{g[1]}" for g in got))
-                else:
-                    outs.append(f"R{got[0][1]}" if got else "N")
+        if k == "rr":
+            params = RTCRtpReceiveParameters(
+                codecs=[RTCRtpCodecParameters(mimeType="video/x", clockRate=90000, payloadType=pt) for pt in op[3]],
+                encodings=[RTCRtpDecodingParameters(ssrc=x, payloadType=(op[3][0] if op[3] else 0)) for x in op[2]],
+                muxId=op[4] or "")
+            self.dtls._register_rtp_receiver(self.receiver(op[1]), params)
+        elif k == "rs":
+            # a sender object has one _ssrc: a sender id registered on another SSRC is re-registered with the new one
+            snd = self.sender(op[1])
+            snd._ssrc = op[2]
+            self.dtls._register_rtp_sender(snd, RTCRtpSendParameters())
+        elif k == "ur":
+            self.dtls._unregister_rtp_receiver(self.receiver(op[1]))
+        elif k == "us":
+            self.dtls._unregister_rtp_sender(self.sender(op[1]))
+        else:
+            raise ValueError(k)
+
+    async def handler_body(self, kind, i):
+        import asyncio
+        n = self.seen[(kind, i)] = self.seen.get((kind, i), 0) + 1
+        for tops, mode, yields in self.fire.get((kind, i, n), ()):
+            if mode == "inline":
+                for t in tops:
+                    self.table_op(t)
+            elif mode == "yield":
+                for _ in range(yields):
+                    await asyncio.sleep(0)
+                for t in tops:
+                    self.table_op(t)
+                for _ in range(yields):
+                    await asyncio.sleep(0)
             else:
-                group = [op]
-                if compound:
-                    while i + len(group) < len(ops) and ops[i + len(group)][0] in ("sr", "rrp", "sdes", "bye", "fb", "ps"):
-                        group.append(ops[i + len(group)])
-                pkts = [make_rtcp(g) for g in group]
-                try:
-                    got = feed(b"".join(wire_rtcp(g) for g in group))
-                    exc = None
-                except Exception as e:  # noqa: BLE001
-                    got, exc = list(log), e
-                stray = [g for g in got if not any(g[2] == p for p in pkts)]
-                for p in pkts:
-                    mine = [g for g in got if g[2] == p]
-                    mult = sum(1 for q in pkts if q == p)       # identical packets in one datagram
-                    who = {(g[0], g[1]) for g in mine}
-                    if exc is not None and not mine:
-                        outs.append(_exc_tag(exc))
-                    elif any(sum(1 for g in mine if (g[0], g[1]) == w) != mult for w in who):
-                        outs.append("crash duplicate-callback")
+                busy, resume = asyncio.Event(), asyncio.Event()
+
+                async def other(tops=tops, yields=yields, busy=busy, resume=resume):
+                    await busy.wait()
+                    try:
+                        for _ in range(yields):
+                            await asyncio.sleep(0)
+                        for t in tops:
+                            self.table_op(t)
+                    finally:
+                        resume.set()
+
+                task = asyncio.ensure_future(other())
+                await asyncio.sleep(0)
+                busy.set()              # "I am busy with this packet" ...
+                await resume.wait()     # ... and the other task stops / starts endpoints meanwhile
+                await task
+
+    def feed(self, data):
+        import asyncio
+        self.ice.queue.append(data)
+        del self.log[:]
+        self.loop.run_until_complete(asyncio.wait_for(self.dtls._recv_next(), 20))
+        return list(self.log)
+
+    def run(self, ops, compound):
+        from aiortc import rtp
+        outs = []
+        n = 0
+        for group in datagrams(ops, compound):
+            op = group[0]
+            k = op[0]
+            try:
+                if k in ("rr", "rs", "ur", "us"):
+                    self.table_op(op)
+                    outs.append("-")
+                elif k == "p":
+                    seq = n % 65536
+                    pkt = rtp.RtpPacket(payload_type=op[2], ssrc=op[1], sequence_number=seq, timestamp=seq * 3, payload=b"x" * (n % 5),
+                                        marker=1 if (op[2] < 64 or op[2] > 80) and n % 3 == 0 else 0)
+                    got = self.feed(pkt.serialize())
+                    bad = [g for g in got if not (g[0] == "R" and g[2].ssrc == op[1] and g[2].payload_type == op[2]
+                                                    and g[2].sequence_number == seq)]
+                    if bad or len(got) > 1:
+                        outs.append("crash callbacks:" + ",".join(f"{g[0]}{g[1]}" for g in got))
                     else:
-                        names = [f"R{x}" for x in sorted(b for a, b in who if a == "R")] + \
-                                [f"S{x}" for x in sorted(b for a, b in who if a == "S")]
-                        outs.append("ok " + (",".join(names) if names else "-"))
-                if stray:
-                    outs[-1] = "crash stray-callback"
-                i += len(group) - 1
-        except Exception as exc:  # noqa: BLE001
-            outs.append(_exc_tag(exc))
-        i += 1
-    return ";".join(outs) + "|" + dump_state(dtls._rtp_router)
+                        outs.append(f"R{got[0][1]}" if got else "N")
+                else:
+                    pkts = [make_rtcp(g) for g in group]
+                    try:
+                        got = self.feed(b"".join(wire_rtcp(g) for g in group))
+                        exc = None
+                    except Exception as e:  # noqa: BLE001
+                        got, exc = list(self.log), e
+                    per = attribute(got, pkts)
+                    if isinstance(per, str):
+                        outs.extend(["ok -"] * (len(pkts) - 1) + [per])
+                    else:
+                        for who in per:
+                            if exc is not None and not who:
+                                outs.append(_exc_tag(exc))
+                            else:
+                                names = [f"R{x}" for x in sorted(b for a, b in who if a == "R")] + \
+                                        [f"S{x}" for x in sorted(b for a, b in who if a == "S")]
+                                outs.append("ok " + (",".join(names) if names else "-"))
+            except Exception as exc:  # noqa: BLE001
+                outs.append(_exc_tag(exc))
+            n += len(group)
+        return outs
+
+
+def run_transport(ops, compound, scripts=()):
+    """Same history through RTCDtlsTransport; consecutive RTCP ops form one compound datagram if `compound`."""
+    t = _TransportRun(scripts)
+    outs = t.run(ops, compound)
+    return ";".join(outs) + "|" + dump_state(t.dtls._rtp_router)
 
 
 # ------------------------------------------------------------------------------------------------
@@ -602,79 +775,271 @@ class Router(Component):
     def _model_ops(self, case):
         return case["ops"]
 
+    def _ref(self, case, observed=None):
+        return ref_history(self._model_ops(case))
+
     def oracle(self, case, impl_out):
         ops = self._model_ops(case)
+        if impl_out.startswith("HARNESS-EXC"):
+            return None     # the harness could not drive the implementation: a broken correspondence, not a failing input
         if "|" not in impl_out:
             return "implementation run failed: " + impl_out[:200]
         outs = impl_out.split("|", 1)[0]
         outs = outs.split(";") if ops else []
         if len(outs) != len(ops):
             return f"{len(outs)} outputs for {len(ops)} operations"
-        ref = Ref()
-        for n, (op, got) in enumerate(zip(ops, outs)):
-            # "once unregistered nothing is routed to it again": judged on the state BEFORE the operation
-            reg_r = set(ref.registered)
-            reg_s = set(ref.snd.values())
-            want, _ = ref.step(op)
+        for n, (op, got, e) in enumerate(zip(ops, outs, self._ref(case, outs))):
+            want = e["want"]
             if got.startswith("crash") or got == "ValueError":
                 return f"op {n} {op}: {got} escaped (expected {want})"
-            if op[0] == "p" or op[0] not in ("rr", "rs", "ur", "us"):
-                names = [] if got in ("N", "ok -") else got.replace("ok ", "").split(",")
-                for nm in names:
-                    if nm[0] == "R" and int(nm[1:]) not in reg_r:
-                        return f"op {n} {op}: routed to receiver {nm[1:]} which is not registered"
-                    if nm[0] == "S" and int(nm[1:]) not in reg_s:
-                        return f"op {n} {op}: routed to sender {nm[1:]} which is not registered"
+            # "once unregistered nothing is routed to it again": judged on the registrations as they are when the
+            # packet's turn comes, i.e. after every table change that preceded it
+            for nm in names_of(got):
+                if nm[0] == "R" and int(nm[1:]) not in e["reg_r"]:
+                    return f"op {n} {op}: routed to receiver {nm[1:]} which is not registered" + self._why(case, n, nm)
+                if nm[0] == "S" and int(nm[1:]) not in e["reg_s"]:
+                    return f"op {n} {op}: routed to sender {nm[1:]} which is not registered" + self._why(case, n, nm)
             if got != want:
+                g, w = set(names_of(got)), set(names_of(want))
+                if got[:2] == want[:2] == "ok" and g <= w and w - g <= e["maybe"]:
+                    continue
                 return f"op {n} {op}: routed to [{got}], the property demands [{want}]"
         return None
 
+    def _why(self, case, n, nm):
+        return ""
+
     def label(self, case, impl_out):
-        ops = self._model_ops(case)
-        if not ops:
+        r = self._ref(case)
+        if not r:
             return "empty"
-        return ref_run(ops)[-1][1]
+        return r[-1]["label"]
 
     def nontrivial(self, case, impl_out):
-        return any(w not in ("-", "N", "ok -") for w, _ in ref_run(self._model_ops(case)))
+        return any(e["want"] not in ("-", "N", "ok -") for e in self._ref(case))
 
     def shrink(self, case):
         for ops in _shrink_ops(case["ops"]):
             yield dict(case, ops=ops)
 
 
+MODES = ["inline", "yield", "task"]
+
+
+def _norm_op(op):
+    # through the transport: muxId "" instead of None; the SSRC list is de-duplicated (order is irrelevant);
+    # a sender object carries ONE _ssrc, registering it again uses the new value (same as the router op)
+    if op[0] == "rr":
+        return op[:4] + [op[4] or ""]
+    return op
+
+
+def _norm_scripts(scripts):
+    return [[k, i, nth, [_norm_op(t) for t in tops], mode, y] for k, i, nth, tops, mode, y in scripts]
+
+
+def sanitize(case):
+    """The set returned by route_rtcp is walked in hash order. Keep a case independent of that order: when the deliveries
+    of ONE packet trigger the scripts of several of its recipients, these must commute -- all of them only unregister;
+    otherwise all but the first firing script of that packet are dropped from the case."""
+    case = dict(case, ops=_wire_ok(case["ops"]), scripts=[list(x) for x in case.get("scripts", [])])
+    for _ in range(50):
+        drop = None
+        for e in ref_history([_norm_op(o) for o in case["ops"]], _norm_scripts(case["scripts"]), case.get("compound", False)):
+            f = e["firing"]
+            if len(f) > 1 and any(t[0] in ("rr", "rs") for _nm, _n, tops in f for t in tops):
+                drop = {(nm, n) for nm, n, _t in f[1:]}
+                break
+        if drop is None:
+            return case
+        case["scripts"] = [x for x in case["scripts"] if (f"{x[0]}{x[1]}", x[2]) not in drop]
+    case["scripts"] = []
+    return case
+
+
+def gen_table_change(rng, who, nr, ns, ssrcs, pts):
+    """What a handler (or a task running while it awaits) does to the tables."""
+    kind, i = who
+    x = rng.random()
+
+    def some(pool, lo, hi):
+        return [rng.choice(pool) for _ in range(rng.randint(lo, hi))]
+    if x < 0.40:                                        # stop myself
+        return [["ur", i] if kind == "R" else ["us", i]]
+    if x < 0.55:                                        # stop somebody else
+        return [["ur", rng.randrange(nr + 1)] if rng.random() < 0.5 else ["us", rng.randrange(ns + 1)]]
+    if x < 0.70:                                        # start a new / restart an existing endpoint
+        if rng.random() < 0.5:
+            return [["rr", rng.randrange(nr + 2), some(ssrcs, 0, 2), some(pts, 1, 2), rng.choice(MIDS)]]
+        return [["rs", rng.randrange(ns + 2), rng.choice(ssrcs)]]
+    if x < 0.90:                                        # replace myself: stop, and another endpoint takes the stream over
+        if kind == "R":
+            return [["ur", i], ["rr", nr + rng.randrange(2), some(ssrcs, 1, 2), some(pts, 1, 2), rng.choice(MIDS)]]
+        return [["us", i], ["rs", ns + rng.randrange(2), rng.choice(ssrcs)]]
+    return [t for _ in range(rng.randint(0, 3)) for t in gen_table_change(rng, who, nr, ns, ssrcs, pts)][:4]      # several things / nothing
+
+
+def gen_scripts(rng, nr, ns, ssrcs, pts, count):
+    out = []
+    for _ in range(count):
+        who = ("R", rng.randrange(nr + 1)) if rng.random() < 0.5 else ("S", rng.randrange(ns + 1))
+        out.append([who[0], who[1], rng.choice([1, 1, 1, 2, 2, 3, 4]), gen_table_change(rng, who, nr, ns, ssrcs, pts),
+                    rng.choice(MODES), rng.choice([0, 1, 1, 3])])
+    return out
+
+
+def gen_traffic_history(rng):
+    """Endpoints are registered first, then bursts of RTCP about THEIR streams (several packets for the same endpoint
+    in a row = one compound datagram), RTP, and top-level table operations; handlers change the tables meanwhile."""
+    nr, ns = rng.choice([1, 2, 3]), rng.choice([1, 2, 3])
+    ssrcs = rng.sample(SSRCS, rng.choice([2, 3, 4]))
+    pts = rng.sample(PTS, rng.choice([1, 2, 3]))
+    ops = []
+    for r in range(nr):
+        ops.append(["rr", r, [rng.choice(ssrcs) for _ in range(rng.choice([0, 1, 1, 2]))], [rng.choice(pts) for _ in range(rng.choice([1, 1, 2]))],
+                    rng.choice(MIDS)])
+    for x in range(ns):
+        ops.append(["rs", x, rng.choice(ssrcs)])
+    rng.shuffle(ops)
+
+    def rtcp():
+        k = rng.choice(["sr", "sr", "bye", "bye", "rrp", "rrp", "fb", "ps", "remb", "sdes"])
+        if k in ("sr", "rrp"):
+            return [k, rng.choice(ssrcs), [rng.choice(ssrcs) for _ in range(rng.choice([0, 1, 1, 2]))]]
+        if k == "bye":
+            return ["bye", [rng.choice(ssrcs) for _ in range(rng.choice([1, 1, 2]))]]
+        if k == "sdes":
+            return ["sdes", [rng.choice(ssrcs)]]
+        if k == "fb":
+            return ["fb", rng.choice([1, 15]), rng.choice(ssrcs), rng.choice(ssrcs)]
+        if k == "ps":
+            return ["ps", rng.choice([1, 2, 4]), rng.choice(ssrcs), rng.choice(ssrcs), ""]
+        from aiortc import rtp
+        return ["ps", 15, rng.choice(ssrcs), 0, rtp.pack_remb_fci(rng.choice([1, 10 ** 6]), [rng.choice(ssrcs) for _ in range(rng.choice([1, 2]))]).hex()]
+    for _ in range(rng.randint(1, 4)):
+        x = rng.random()
+        if x < 0.65:
+            burst = [rtcp() for _ in range(rng.choice([2, 2, 3, 3, 4, 6]))]
+            if rng.random() < 0.3:
+                burst.insert(rng.randrange(len(burst) + 1), list(rng.choice(burst)))     # the same packet twice
+            ops.extend(burst)
+        elif x < 0.85:
+            ops.append(["p", rng.choice(ssrcs), rng.choice(pts)])
+        else:
+            ops.append(gen_op(rng, nr, ns, ssrcs, pts))
+    return {"ops": ops, "compound": rng.random() < 0.85, "rev": rng.randrange(2),
+            "scripts": gen_scripts(rng, nr - 1, ns - 1, ssrcs, pts, rng.choice([1, 1, 2, 3]))}
+
+
+# every short compound datagram x every single scripted change, on a fixed registration (receiver 0: SSRC 1 / PT 96, sender 0: SSRC 2)
+SMALL_SETUP = [["rr", 0, [1], [96], None], ["rs", 0, 2]]
+SMALL_PACKETS = [["bye", [1]], ["sr", 1, [2]], ["rrp", 9, [2]], ["fb", 1, 9, 2]]
+SMALL_CHANGES = [[["ur", 0]], [["us", 0]], [["ur", 0], ["rr", 1, [1], [96], None]], [["us", 0], ["rs", 1, 2]]]
+
+
+def small_cases(maxlen):
+    out = []
+    n = 0
+    for L in range(2, maxlen + 1):
+        for dg in itertools.product(SMALL_PACKETS, repeat=L):
+            for who in (("R", 0), ("S", 0)):
+                for nth in (1, 2):
+                    for ch in SMALL_CHANGES:
+                        n += 1
+                        out.append({"ops": SMALL_SETUP + [list(x) for x in dg] + [["p", 1, 96]], "compound": True, "rev": n % 2,
+                                    "scripts": [[who[0], who[1], nth, ch, MODES[n % 3], n % 2]]})
+    return out
+
+
+TRANSPORT_CORPUS = [
+    # the receiver stops itself on the BYE; the SR behind it in the same datagram must not reach it
+    {"ops": [["rr", 0, [1], [96], None], ["bye", [1]], ["sr", 1, []], ["sr", 1, []]], "compound": True, "rev": 0,
+     "scripts": [["R", 0, 1, [["ur", 0]], "inline", 0]]},
+    # another task stops the sender while its handler awaits on the RR; NACK and PLI behind it must not reach it
+    {"ops": [["rs", 0, 2], ["rrp", 1, [2]], ["fb", 1, 1, 2], ["ps", 1, 1, 2, ""]], "compound": True, "rev": 1,
+     "scripts": [["S", 0, 1, [["us", 0]], "task", 1]]},
+    # ... and a sender started by that task for the same SSRC gets the rest of the datagram
+    {"ops": [["rs", 0, 2], ["rrp", 1, [2]], ["fb", 1, 1, 2], ["ps", 1, 1, 2, ""]], "compound": True, "rev": 0,
+     "scripts": [["S", 0, 1, [["us", 0], ["rs", 1, 2]], "task", 3]]},
+    # a receiver handler stops a sender (and the other way round) in the middle of a datagram about both
+    {"ops": [["rr", 0, [1], [96], "a"], ["rs", 0, 2], ["sr", 1, [2]], ["sr", 1, [2]], ["rrp", 1, [2]], ["bye", [1]]], "compound": True, "rev": 1,
+     "scripts": [["R", 0, 1, [["us", 0]], "yield", 1], ["S", 0, 1, [["ur", 0]], "inline", 0]]},
+    # the handler of an RTP packet stops the receiver; a second receiver then latches the SSRC
+    {"ops": [["rr", 0, [], [96], None], ["p", 7, 96], ["rr", 1, [], [96], None], ["p", 7, 96], ["p", 7, 96], ["bye", [7]]], "compound": False, "rev": 0,
+     "scripts": [["R", 0, 2, [["ur", 0]], "task", 0]]},
+    # the same packet twice in a datagram: the first copy makes the receiver hand the stream over to another receiver
+    {"ops": [["rr", 0, [1], [96], None], ["bye", [1]], ["bye", [1]], ["bye", [1]]], "compound": True, "rev": 0,
+     "scripts": [["R", 0, 1, [["ur", 0], ["rr", 1, [1], [97], ""]], "inline", 0], ["R", 1, 1, [["ur", 1]], "yield", 3]]},
+]
+
+
 class Transport(Router):
     name = "transport"
-    theorems = ["route_rtp_spec", "route_rtcp_spec", "unregistered_receiver_is_gone", "unregistered_sender_is_gone", "history_spec"]
+    theorems = ["route_rtp_spec", "route_rtcp_spec", "unregistered_receiver_is_gone", "unregistered_sender_is_gone", "history_spec",
+                "compound_delivery_uses_current_tables", "compound_delivery_only_to_registered",
+                "unregistered_mid_datagram_receiver_is_gone", "unregistered_mid_datagram_sender_is_gone",
+                "transport_unregistered_receiver_is_gone", "transport_unregistered_sender_is_gone", "compound_without_table_changes"]
 
     def corpus(self):
-        return [{"ops": _wire_ok(ops), "compound": bool(i % 2)} for i, ops in enumerate(CORPUS)]
+        return [sanitize({"ops": ops, "compound": bool(i % 2), "rev": i % 2, "scripts": []}) for i, ops in enumerate(CORPUS)] + \
+               [sanitize(c) for c in TRANSPORT_CORPUS]
 
     def cases(self, rng, tier):
         n = 600 if tier == "quick" else 12000
-        return [{"ops": _wire_ok(gen_history(rng, rng.choice([4, 10, 25]))), "compound": rng.random() < 0.5} for _ in range(n)]
-
-    def _model_ops(self, case):
-        # through the transport: muxId "" instead of None; the SSRC list is de-duplicated (order is irrelevant);
-        # a sender object carries ONE _ssrc, registering it again uses the new value (same as the router op)
         out = []
-        for op in case["ops"]:
-            if op[0] == "rr":
-                op = op[:4] + [op[4] or ""]
-            out.append(op)
+        for _ in range(n):
+            nr_ns_hist = gen_history(rng, rng.choice([4, 10, 25]))
+            scripts = gen_scripts(rng, 2, 2, SSRCS, PTS, rng.choice([0, 0, 1, 2])) if rng.random() < 0.5 else []
+            out.append(sanitize({"ops": nr_ns_hist, "compound": rng.random() < 0.5, "rev": rng.randrange(2), "scripts": scripts}))
+        for _ in range(n):
+            out.append(sanitize(gen_traffic_history(rng)))
+        out.extend(sanitize(c) for c in small_cases(3 if tier == "quick" else 4))
         return out
 
+    def _model_ops(self, case):
+        return [_norm_op(op) for op in case["ops"]]
+
+    def _ref(self, case, observed=None):
+        return ref_history(self._model_ops(case), _norm_scripts(case.get("scripts", [])), case.get("compound", False), observed)
+
     def model_line(self, case):
-        return model_line_for(self._model_ops(case))
+        scripts = _norm_scripts(case.get("scripts", []))
+        sl = ";".join(f"{k}{i}@{nth}=" + "/".join(op_line(t) for t in tops) for k, i, nth, tops, _m, _y in scripts) or "-"
+        items = ";".join("&".join(op_line(o) for o in g) for g in datagrams(self._model_ops(case), case.get("compound", False))) or "-"
+        return f"router deliver {case.get('rev', 0)} {sl} {items}"
 
     def impl(self, case):
-        return run_transport(case["ops"], case.get("compound", False))
+        return run_transport(case["ops"], case.get("compound", False), case.get("scripts", []))
+
+    def _why(self, case, n, nm):
+        return " any more when this packet's turn comes (table changes made during earlier deliveries count)"
+
+    def label(self, case, impl_out):
+        r = self._ref(case)
+        if not r:
+            return "empty"
+        lab = r[-1]["label"]
+        if any(e["stale"] is not None and e["stale"] != e["want"] for e in r):
+            lab += "+changed-mid-datagram"       # a routing decision taken when the datagram arrived would be wrong
+        elif any(e["fired"] for e in r):
+            lab += "+handler-changed-tables"
+        return lab
 
     def shrink(self, case):
-        if case.get("compound"):
-            yield dict(case, compound=False)
+        scripts = case.get("scripts", [])
+        for i in range(len(scripts)):
+            yield sanitize(dict(case, scripts=scripts[:i] + scripts[i + 1:]))
         for ops in _shrink_ops(case["ops"]):
-            yield dict(case, ops=_wire_ok(ops))
+            yield sanitize(dict(case, ops=ops))
+        for i, sc in enumerate(scripts):
+            for t in range(len(sc[3])):
+                yield sanitize(dict(case, scripts=scripts[:i] + [sc[:3] + [sc[3][:t] + sc[3][t + 1:]] + sc[4:]] + scripts[i + 1:]))
+            if sc[4] != "inline":
+                yield sanitize(dict(case, scripts=scripts[:i] + [sc[:4] + ["inline", 0]] + scripts[i + 1:]))
+            elif sc[5]:
+                yield sanitize(dict(case, scripts=scripts[:i] + [sc[:5] + [0]] + scripts[i + 1:]))
+        if case.get("rev"):
+            yield dict(case, rev=0)
 
 
 def _wire_ok(ops):
